@@ -419,3 +419,80 @@ def c02_zerosign(R):
     R.need(scanned >= 20, f"only {scanned} functions with a zero test scanned")
     if n == 0:
         R.ok(tree.mod(Z3B), None, f"no order comparison with 0 under a zero fact in {scanned} functions that test for zero")
+
+
+@rule(
+    "C03.blocklit",
+    props=("C03", "C26", "C11"),
+    floor=2,
+    family="DEP",
+    desc="a Python str that BackendZ3 compares with a Z3 term (the value it blocks in _batch_eval, the candidate of "
+    "_solution) is first turned into a string constant through the backend's own encoder: z3py would coerce it without "
+    "escaping and read `\\u{41}` inside a found value as the character A",
+)
+def c03_blocklit(R):
+    tree = R.tree
+    m = tree.mod(Z3B)
+    n = 0
+
+    def encodes(e):
+        return any(isinstance(c, ast.Call) and ((isinstance(c.func, ast.Attribute) and c.func.attr == "_string_literal") or (isinstance(c.func, ast.Name) and c.func.id == "_z3_string_encode")) for c in ast.walk(e))
+
+    for name in ("_batch_eval", "_solution"):
+        fn = tree.func(Z3B, f"BackendZ3.{name}")
+        assigns = {}
+        for st in ast.walk(fn):
+            if isinstance(st, ast.Assign):
+                for t in st.targets:
+                    for x in ast.walk(t):
+                        if isinstance(x, ast.Name):
+                            assigns.setdefault(x.id, []).append(st.value)
+        # primitive values: what _primitive_from_model produced (and containers they were put into), or the candidate
+        prim = set()
+        if name == "_solution":
+            prim.add([a.arg for a in fn.args.args][2])
+        for _ in range(3):
+            for c in ast.walk(fn):
+                if isinstance(c, ast.Assign) and any(isinstance(k, ast.Call) and isinstance(k.func, ast.Attribute) and k.func.attr == "_primitive_from_model" for k in ast.walk(c.value)):
+                    prim |= {x.id for t in c.targets for x in ast.walk(t) if isinstance(x, ast.Name)}
+                if isinstance(c, ast.Call) and isinstance(c.func, ast.Attribute) and c.func.attr == "append" and isinstance(c.func.value, ast.Name) and any(isinstance(x, ast.Name) and x.id in prim for a in c.args for x in ast.walk(a)):
+                    prim.add(c.func.value.id)
+        # ... and what is computed from them
+        for _ in range(3):
+            for nm, ds in assigns.items():
+                if nm not in prim and any(isinstance(x, ast.Name) and x.id in prim for d in ds for x in ast.walk(d)):
+                    prim.add(nm)
+        for cmp_ in ast.walk(fn):
+            if not (isinstance(cmp_, ast.Compare) and len(cmp_.ops) == 1 and isinstance(cmp_.ops[0], (ast.Eq, ast.NotEq))):
+                continue
+            sides = [cmp_.left, cmp_.comparators[0]]
+            for side in sides:
+                names = {x.id for x in ast.walk(side) if isinstance(x, ast.Name)}
+                # a comprehension variable ranges over what it is drawn from
+                srcs = set(names)
+                for comp in ast.walk(fn):
+                    if isinstance(comp, ast.comprehension):
+                        tn = [x.id for x in ast.walk(comp.target) if isinstance(x, ast.Name)]
+                        if names & set(tn):
+                            srcs |= {x.id for x in ast.walk(comp.iter) if isinstance(x, ast.Name)}
+                raw = srcs & prim
+                if not raw:
+                    continue
+                # is the value used here a raw primitive, or one that went through the encoder?
+                n += 1
+                ok = True
+                for v in raw:
+                    defs = assigns.get(v, [])
+                    # reassigned through the encoder under an isinstance(v, str) test, or used raw
+                    ok = ok and any(encodes(d) for d in defs)
+                R.check(
+                    ok,
+                    m,
+                    cmp_,
+                    f"{name}: string values are compared as encoded constants",
+                    f"BackendZ3.{name} compares a Z3 term with the raw Python value `{ast.unparse(side)[:40]}`: for a str z3py builds the "
+                    f"constant without claripy's escaping, so a found `\\\\u{{41}}` is read as A - eval(x, 10) over {{\\\\u{{41}}, A, B}} "
+                    f"returned one value ten times, and solution(x, '\\\\u{{41}}') was False for x pinned to that text",
+                    construct=f"{name}: raw model value compared with a Z3 term",
+                )
+    R.need(n >= 2, f"only {n} comparisons of model values found in _batch_eval / _solution")
